@@ -24,5 +24,7 @@ CallsWide == CallsSmall \cup {G("k3"), P("k2", 2, 1), F("k2"), [op |-> "flushall
 S0 == <<>>
 S1 == <<P("k1", 1, 1), P("k2", 1, 3), [op |-> "tick", d |-> 1]>>      \* k1 present but expired, k2 fresh
 S2 == <<P("k1", 1, 5), P("k2", 1, 5), G("k1")>>                         \* full (max 2), k2 least recent
-AllSetups == {S0, S1, S2}
+\* a periodic cleaning pass of the plain cache is due (interval 2) and k1 is expired: the next call cleans
+S3 == <<P("k1", 1, 1), P("k2", 1, 9), [op |-> "tick", d |-> 3]>>
+AllSetups == {S0, S1, S2, S3}
 =============================================================================
